@@ -799,7 +799,7 @@ pub fn process<I: BufRead, O: Write>(
                 } else if state == State::Active {
                     lines.push((filename_rc.clone(), line, included_in_rc.clone()));
                     output.write_all(new_line.as_bytes())?;
-                    if !new_line.ends_with('\n') && has_lf {
+                    if !new_line.ends_with('\n') && (has_lf || !context.includes_stack.is_empty()) {
                         output.write_all(b"\n")?;
                     }
                 }
